@@ -145,7 +145,9 @@ where
 
   fn on_admit(&self, key: &K, cost: u64) -> AdmissionDecision<K> {
     let mut state = self.state.lock();
-    if !state.protected.contains(key) && !state.probationary.contains(key) {
+    // A key that is already tracked was overwritten: keep its segment and position, but record
+    // the new cost - evict() must report what the resident entry really costs.
+    if !state.protected.update_cost(key, cost) && !state.probationary.update_cost(key, cost) {
       state.probationary.push_front(key.clone(), cost);
     }
     AdmissionDecision::Admit
